@@ -110,7 +110,7 @@ _c("C03",
    "any length by induction (C03_history, C03_failed_steps_stutter), witnesses: a constructed violating (class, state, op) for "
    "every unsafe table entry (C03_witness, strict_table_status), an in-place body exposes what a base method that fails half way "
    "leaves behind (C03_inplace_failure_exposes_partial), and C03_refuted for the statement over every conceivable mutator shape "
-   "(refuted by a mutator that is not overridden; no entry of the current tables is of that shape). The model's mstep is compared with typedpy inside Coq on generated histories (all introspected "
+   "(refuted by a mutator that is not overridden; no entry of the current tables is of that shape). The explicit-None markers of `_enable_undefined_value` classes (instance._none_fields) are a second state component (Struct/NoneFields.v): Structure.__setattr__ is translated every run into the ordered list of its effects on (__dict__[key], _none_fields) (Gen/StructNoneFields.v), proved equal to the documented list (C03_src_setattr_none_fields) and all-or-nothing on both components (C03_src_setattr_atomic_on_both_components); the other order is refuted (C03_discard_before_handover_not_atomic); _none_fields is part of the state compared before/after every operation. The model's mstep is compared with typedpy inside Coq on generated histories (all introspected "
    "mutators; positional, keyword, slice, one-shot-iterator, failing-iterator and key-function arguments; `x.f += v` statement "
    "forms; re-read and re-used handles) and on enumerated streams (values Python's == cannot tell from the stored one through "
    "every entry point, a value lattice over multi-field wrappers, the same lattice on one instance after events on OTHER "
@@ -257,7 +257,8 @@ _c("C16",
    "PARTIAL. Coq theorems (Props/C16.v, closed under the global context) over models of make_signature (Stubs/Signature.v) and of "
    "the stub generator at the level of (name, has-default, kind) (Stubs/StubModel.v), for hierarchies of any depth by induction: "
    "stub keywords = runtime parameters minus constants, no default iff required (under def_ok/tok_safe; unconditional statement "
-   "refuted), ** iff additional properties (under kw_safe; refuted otherwise), helper methods carry the same keywords, no mandatory "
+   "refuted), ** iff additional properties (under kw_safe; refuted otherwise), helper methods carry the same keywords (the two classmethods minus a keyword named like one of their own parameters cls / "
+   "source_object / ignore_props, which they never repeat: C16_no_duplicate_arguments), no mandatory "
    "parameter after an optional one, determinism. That the text parses, every class is declared, enum names are kept and output is "
    "byte-identical across PYTHONHASHSEED values are runtime facts decided by the harness (real create_stub_for_file in "
    "subprocesses, ast.parse/compile, inspect.signature, constructor probes), not by the theorems.",
